@@ -26,6 +26,8 @@ type histProfile struct {
 	Windows     []int64
 	MaxVals     []uint64
 	FixedMin    bool
+	GovHandover bool // generate ACL / DAO-owner hand-overs with real pool addresses
+	seed        int
 }
 
 var defaultTxKinds = []string{"send", "send", "stake", "stake", "unstake", "unjail", "award", "award", "burn", "param", "dao", "upgrade", "raw"}
@@ -176,6 +178,24 @@ func genTx(pr *histProfile) func(t *rapid.T) hTx {
 		case "param":
 			tx.Key = rapid.SampledFrom(append([]string{"nosuch/Key", "pos/NoSuchKey", "malformed"}, simParamKeys...)).Draw(t, "pkey")
 			tx.Str = genParamValue(t, tx.Key)
+			if pr.GovHandover && (tx.Key == "gov/acl" || tx.Key == "gov/daoOwner") && rapid.IntRange(0, 3).Draw(t, "handover") != 0 {
+				pool := simKeyPool(pr.seed)
+				if tx.Key == "gov/daoOwner" {
+					tx.Str = `"` + pool[rapid.IntRange(0, simPoolSize-1).Draw(t, "newdao")].Addr.String() + `"`
+				} else {
+					// a complete ACL with owners rotated among a few keys
+					base := rapid.IntRange(0, simPoolSize-1).Draw(t, "aclbase")
+					step := rapid.IntRange(0, 2).Draw(t, "aclstep")
+					str := `{"type":"gov/non_map_acl","value":[`
+					for i, k := range simParamKeys {
+						if i > 0 {
+							str += ","
+						}
+						str += fmt.Sprintf(`{"acl_key":%q,"address":%q}`, k, pool[(base+i*step)%simPoolSize].Addr.String())
+					}
+					tx.Str = str + "]}"
+				}
+			}
 		case "dao":
 			tx.Str = rapid.SampledFrom([]string{"dao_transfer", "dao_transfer", "dao_burn", "dao_steal"}).Draw(t, "action")
 			switch rapid.IntRange(0, 5).Draw(t, "daoamt") {
@@ -197,6 +217,9 @@ func genTx(pr *histProfile) func(t *rapid.T) hTx {
 			tx.Str = rapid.SampledFrom([]string{"0.0.2", "1.0.0", ""}).Draw(t, "upversion")
 		case "raw":
 			tx.Str = fmt.Sprintf("%x", rapid.SliceOfN(rapid.Byte(), 0, 40).Draw(t, "rawbytes"))
+		case "rawmut":
+			tx.Str = rapid.SampledFrom([]string{"truncate", "flip", "flip", "splice", "lenprefix", "append"}).Draw(t, "rawmutkind")
+			tx.Amt = int64(rapid.IntRange(0, 400).Draw(t, "rawmutpos"))
 		}
 		if pr.WrongSigner > 0 && rapid.IntRange(0, pr.WrongSigner-1).Draw(t, "wrongsigner") == 0 {
 			tx.SignWith = rapid.IntRange(0, simPoolSize-1).Draw(t, "signwith")
@@ -254,7 +277,7 @@ func genParamValue(t *rapid.T, key string) string {
 	case "gov/daoOwner":
 		return `"` + fmt.Sprintf("%040x", rapid.IntRange(1, 9).Draw(t, "pdao")) + `"`
 	case "gov/upgrade":
-		return `{"Height":"2000000000","Version":"9.9.9"}`
+		return `{"type":"gov/upgrade","value":{"Height":"2000000000","Version":"9.9.9"}}`
 	}
 	return `"1"`
 }
@@ -299,6 +322,9 @@ func genBlock(pr *histProfile) func(t *rapid.T) hBlock {
 
 func genHistory(t *rapid.T, pr *histProfile) *hProg {
 	p := &hProg{Gen: genGenesis(t, pr)}
+	prc := *pr
+	prc.seed = p.Gen.Seed
+	pr = &prc
 	mins := pr.MinBlocksOf
 	if len(mins) == 0 {
 		mins = []int{1, 6, 12}
